@@ -18,6 +18,8 @@ PAIRS = {
     'grow-planar': ('CNO', geo.PATTERNS['planar3'][1], 'CNOSP', geo.PATTERNS['planar3'][1] + [[1.6, 1.5, 1.3], [2.4, 2.3, 2.1]]),
     # the first atom keeps its element but is displaced by 0.08 A in the replacement (more than the sameness threshold 1e-5, less than 0.1)
     'nudge-swap': ('CNO', geo.PATTERNS['planar3'][1], 'CNS', [[0.05, -0.05, 0.04]] + geo.PATTERNS['planar3'][1][1:]),
+    # the new atom is listed BEFORE the atoms taken over (interleaved order): indices of retained atoms differ between the two patterns
+    'grow-interleaved': ('CNO', geo.PATTERNS['planar3'][1], 'CSNOP', [geo.PATTERNS['planar3'][1][0], [1.6, 1.5, 1.3], geo.PATTERNS['planar3'][1][1], geo.PATTERNS['planar3'][1][2], [2.4, 2.3, 2.1]]),
     'collinear-swap': ('CNO', geo.PATTERNS['collinear3'][1], 'CNS', geo.PATTERNS['collinear3'][1][:2] + [[2.5, 0.0, 0.0]]),
 }
 
